@@ -173,6 +173,11 @@ def c01(res, tier, seed, replay):
                 runs.append({"name": f"crud-{cfgname}-{ctag}-{s}",
                              "args": ["-mode", "crud", "-repeat-upd", "-config", cfgname, "-cache", cache, "-seed", seed * 100 + s,
                                       "-hist", hist, "-batches", batches]})
+        # every index kind of the kitchen schema written side by side on a slow disk (storage reads of the write
+        # transaction take 0.2 ms): what one stage prepares stays prepared long enough for another to disturb it
+        runs.append({"name": f"crud-kitchen-slowdisk-{s}",
+                     "args": ["-mode", "crud", "-config", "kitchen", "-cache", "0", "-slowget-us", 200, "-seed", seed * 100 + 55 + s,
+                              "-hist", 3 if tier == "quick" else 8, "-batches", 12]})
         runs.append({"name": f"crud-scalars-mem-{s}",
                      "args": ["-mode", "crud", "-config", "scalars", "-mem", "-seed", seed * 100 + 50 + s,
                               "-hist", hist, "-batches", batches]})
@@ -360,6 +365,11 @@ def c05(res, tier, seed, replay):
         runs.append({"name": f"text-mem-{s}",
                      "args": ["-mode", "rank", "-config", "text", "-mem", "-seed", seed * 100 + 40 + s,
                               "-hist", hist, "-batches", batches, "-rank", rank]})
+        # the two text indexes of the configuration are written side by side; on a slow disk (every storage read of a write
+        # transaction takes 0.3 ms) what one of them prepares stays prepared long enough for the other to disturb it
+        runs.append({"name": f"text-slowdisk-{s}",
+                     "args": ["-mode", "rank", "-config", "text", "-cache", "0", "-slowget-us", 300, "-seed", seed * 100 + 60 + s,
+                              "-hist", 2 if tier == "quick" else 6, "-batches", 10, "-rank", 3]})
     results = drive_and_validate(res, runs)
     for r in results[:2]:
         sample_from_trace_nonempty(res, r["trace"], "Text", cap=2)
